@@ -580,6 +580,12 @@ func runC13(t *verifsim.Tape, cfg engine.Config) *engine.Outcome {
 	if allHashes(orig) != beforeHash {
 		o.Violate("copy_not_independent", "copy_not_independent:hash", "the original's hash changed after mutating the copy (%v)", ops)
 	}
+	// Equal is the structural comparison: it agrees with the hash taken under the flags the documentation gives it
+	// (names and tags ignored), also between a type and an edited copy of it (which keep the same type id)
+	if eq, hq := expr.Equal(orig, cp), expr.Hash(orig, false, true, true) == expr.Hash(cp, false, true, true); eq != hq {
+		o.Violate("equal_disagrees_with_hash", fmt.Sprintf("equal_vs_hash:equal=%v", eq), "after %v on the copy: Equal(original, copy)=%v but their structural hashes are equal=%v", ops, eq, hq)
+	}
+	o.Features["equal_vs_hash_checked"]++
 	// DupAtt on a reachable attribute
 	if len(oa) > 0 {
 		a := oa[t.Draw("dupatt-site", len(oa))]
@@ -684,6 +690,20 @@ func runC13(t *verifsim.Tape, cfg engine.Config) *engine.Outcome {
 	// ---- 4. two-sided history, last because it changes the original: a fresh copy, then AddRequired / Meta appends
 	// applied alternately to the original and to the copy; the side that was not touched must read as before
 	{
+		// likewise metadata: goa deletes keys from the Meta of copied attributes (struct:pkg:path ...), which can leave
+		// an allocated but empty map behind
+		if t.Draw("pre-empty-meta", 3) == 0 {
+			var pa []*expr.AttributeExpr
+			c13sites(orig, map[expr.UserType]bool{}, &pa, new([]*expr.Object), new([]expr.UserType), new([]*expr.Union))
+			for _, a := range pa {
+				if a.Meta != nil && t.Draw("empty-this-meta", 2) == 0 {
+					for k := range a.Meta {
+						delete(a.Meta, k)
+					}
+					o.Features["meta_emptied_in_place"]++
+				}
+			}
+		}
 		cp2 := expr.Dup(orig)
 		var a1, a2 []*expr.AttributeExpr
 		c13sites(orig, map[expr.UserType]bool{}, &a1, new([]*expr.Object), new([]expr.UserType), new([]*expr.Union))
@@ -715,6 +735,9 @@ func runC13(t *verifsim.Tape, cfg engine.Config) *engine.Outcome {
 				for mk2 := range side.Meta {
 					side.Meta[mk2] = append(side.Meta[mk2], fmt.Sprintf("v%d_%s", k, who))
 					break
+				}
+				if side.Meta != nil {
+					side.Meta[fmt.Sprintf("added:%d:%s", k, who)] = []string{"x"} // (what MetaExpr's setters do: write into the map that is there)
 				}
 				o.Features["two_sided_mutations"]++
 				if now := snapshot(other); now != was {
